@@ -44,6 +44,16 @@ def run(ck):
     ck.analysed(mod, rs)
     ck.analysed(mod, ann)
 
+    # ---- the sequence the processor works on is the one it was given: the length tests of run_system / run_molecule are tests on the user's sequence
+    # (a constructor that shortens or pads it decides the repetition rule before those tests see the real length)
+    init = ck.need(method(cls, '__init__'), 'AnnotateResidues.__init__ vanished')
+    ck.analysed(mod, init)
+    stores = [s_ for s_ in walk_local(init) if isinstance(s_, ast.Assign) and any(u(t_) == 'self.sequence' for t_ in s_.targets)]
+    rebinds = [s_ for s_ in walk_local(init) if isinstance(s_, (ast.Assign, ast.AugAssign)) and
+               any(isinstance(t_, ast.Name) and t_.id == 'sequence' for t_ in (s_.targets if isinstance(s_, ast.Assign) else [s_.target]))]
+    ok = len(stores) == 1 and u(stores[0].value) == 'sequence' and not rebinds and 'sequence' in param_names(init)
+    ck.ob('PROV-sequence', mod.loc(init), ok, 'AnnotateResidues keeps the sequence it was given, unchanged ({} store(s) of self.sequence, {} rebinding(s) of the argument)'.format(
+        len(stores), len(rebinds)), key='PROV-sequence|constructor-verbatim')
     # ---- SIB-zip: package-wide sweep (cheap), anchored instance must exist
     total = 0
     anchored = 0
